@@ -36,7 +36,7 @@ def bearer_cases(rng, tier):
 
 
 JWT_MUTS = ["none", "bad-sig", "wrong-key", "unknown-kid", "no-kid", "alg-none", "iss-wrong", "iss-missing", "aud-wrong", "aud-list-ok",
-            "aud-missing", "exp-past", "exp-missing", "exp-bool", "typ-bad", "typ-app", "typ-upper", "typ-int", "typ-absent", "scope-int",
+            "aud-missing", "exp-past", "exp-missing", "exp-bool", "typ-bad", "typ-suffix", "typ-suffix2", "typ-prefix", "typ-space", "typ-app", "typ-upper", "typ-int", "typ-absent", "scope-int",
             "scope-list", "sub-missing", "client_id-missing", "iat-missing", "iat-future", "jti-missing", "auth_time-str", "amr-str",
             "groups-int", "not-jwt", "two-parts", "payload-not-json", "payload-list", "garbage-b64"]
 JWT_REQS = [dict(), dict(scopes=["a"]), dict(scopes=["z"]), dict(scopes=["a b"]), dict(groups=["g1"]), dict(groups=["gz"]),
@@ -132,6 +132,10 @@ def craft(muts, want_parts=False):
         elif m == "exp-missing": payload.pop("exp", None)
         elif m == "exp-bool": payload["exp"] = True
         elif m == "typ-bad": header["typ"] = "JWT"
+        elif m == "typ-suffix": header["typ"] = "rat+jwt"
+        elif m == "typ-suffix2": header["typ"] = "text/at+jwt"
+        elif m == "typ-prefix": header["typ"] = "at+jwtx"
+        elif m == "typ-space": header["typ"] = " at+jwt"
         elif m == "typ-app": header["typ"] = "application/at+jwt"
         elif m == "typ-upper": header["typ"] = "AT+JWT"
         elif m == "typ-int": header["typ"] = 5
